@@ -10,6 +10,7 @@ from vlib import Case, Rng
 
 ID = "C09"
 PROPS_MODULE = "AmqModel.Props.C09"
+EXTRA_PROPS_MODULES = ["AmqModel.Props.Handoff"]      # the two sends at the end of a cancel / close against the caller\'s thread, every schedule (finding D15)
 NONTRIVIAL_RULE = "a server channel close while >= 2 channels are open"
 MODEL_SCOPE = "connection_state.rs Channel.Close / Channel.CloseOk arms, slot removal, channel_slots.rs freed ids, mod.rs handle_channel_readable stale wake-up"
 ASSUMPTIONS = ["A1 amq-protocol parse/gen; A2 FIFO queues"]
@@ -126,8 +127,17 @@ def gen_api(tier, seed):
     return cases
 
 
+def consdrop_monitor(case, il, sl):
+    lines = [l for l in il if l and not l.startswith("#")]
+    if lines == ["cycles ok", "close ok"]:
+        return None
+    return ("consume + drop of the consumer in a loop (schedule sampling, real I/O thread): %s" % lines, "consdrop-lost")
+
+
 def suites(tier, seed):
-    return [Suite("id-lifecycles", "machine", lambda: mg.id_lifecycle_cases(Rng(seed + 5), 2, 5) + mg.id_lifecycle_cases(Rng(seed + 4), 2, 6, stride=23 if tier == "quick" else 2, offset=seed, prefix="k") + mg.id_lifecycle_cases(Rng(seed + 6), 3, 5 if tier == "quick" else 6, stride=19 if tier == "quick" else 29, offset=seed, prefix="j"),
+    return [Suite("consume-drop-schedules", "consdrop", lambda: [Case("x%d" % i, [o], {"keep_prefix": 0}) for i, o in enumerate(["run-close 600 0", "run-close 600 0", "run-close 300 4"] + ([] if tier == "quick" else ["run-close 6000 0", "run-close 3000 2", "run-close 2000 8"]))], monitor=consdrop_monitor, nontrivial=lambda c, il: True, compare=False, shards=4, shrink=False, timeout=600,
+                  rule="real connection + I/O thread + scripted broker that answers every Basic.Cancel by closing that channel (406): a fresh channel with a consumer per cycle, the consumer dropped (cancel in flight when the server's Channel.Close arrives), 300-600 cycles per case with 0-4 busy threads competing for the cores: after every cycle a call on the OTHER channel succeeds, at the end Connection::close returns Ok (schedule sampling; finding D15)"),
+            Suite("id-lifecycles", "machine", lambda: mg.id_lifecycle_cases(Rng(seed + 5), 2, 5) + mg.id_lifecycle_cases(Rng(seed + 4), 2, 6, stride=23 if tier == "quick" else 2, offset=seed, prefix="k") + mg.id_lifecycle_cases(Rng(seed + 6), 3, 5 if tier == "quick" else 6, stride=19 if tier == "quick" else 29, offset=seed, prefix="j"),
                   monitor=monitor, nontrivial=lambda c, il: True, canon=mg.canon_nondet, candidate_ok=mg.candidate_ok, shards=4,
                   rule="channel_max 2: EVERY sequence of 5 operations from {open automatic, open id 1, open id 2, client closes 1 / 2, server closes 1 / 2} and a sample of the sequences of 6; channel_max 3: sequences of 5 (6) sampled; then a call in flight on every open channel, replies arriving in reverse order: each reply reaches the channel that asked, ids are never shared"),
             Suite("reply-then-close", "machine", lambda: mg.reply_close_cases(Rng(seed + 77), kinds=("chan",)), monitor=monitor, nontrivial=lambda c, il: True, canon=mg.canon_nondet, candidate_ok=mg.candidate_ok, exhaustive=True,
